@@ -165,17 +165,36 @@ func cmdCheck(args []string) {
 		timeout = 120000
 	}
 	work := filepath.Join(root, ".work", fmt.Sprintf("%s-%d", prop, os.Getpid()))
-	cfg := &SolverCfg{WorkDir: work, TimeoutMS: timeout, Seed: seed, Jobs: 16, AllAgree: tier == "thorough", Keep: *keep}
+	cfg := &SolverCfg{WorkDir: work, TimeoutMS: timeout, Seed: seed, Jobs: 12, AllAgree: tier == "thorough", Keep: *keep}
 	SolveAll(res.Obls, cfg)
 	if !*keep {
 		defer os.RemoveAll(work)
 	}
 	greenPath := filepath.Join(root, "expected", prop+".green")
 	green := loadGreen(greenPath)
+	// obligations that are expected to discharge but ran into a time limit under load are
+	// retried with few parallel jobs and a long limit before any verdict is drawn
+	var retry []*Obligation
+	for _, o := range res.Obls {
+		if o.Status == "unknown" && (green[o.Name] || *updateGreen) && o.Kind != "cover" {
+			retry = append(retry, o)
+		}
+	}
+	if len(retry) > 0 && len(retry) <= 40 {
+		for _, o := range retry {
+			o.Status, o.Solver = "", ""
+		}
+		cfg2 := *cfg
+		cfg2.Jobs = 4
+		cfg2.TimeoutMS = 60000
+		cfg2.StageMS = 15000
+		SolveAll(retry, &cfg2)
+		res.Extra["retried_after_timeout"] = len(retry)
+	}
 	if *updateGreen {
 		var names []string
 		for _, o := range res.Obls {
-			if o.Status == "discharged" && o.TimeMS < 5000 {
+			if o.Status == "discharged" && o.TimeMS < 20000 {
 				names = append(names, o.Name)
 			}
 		}
@@ -238,6 +257,25 @@ func cmdCheck(args []string) {
 		}
 		g.obls = append(g.obls, o)
 	}
+	// functions some of whose expected-green obligations no longer exist under their name (the
+	// code was restructured): an undischarged obligation of such a function is not "new and
+	// undecided" but takes the place of a proved one
+	have0 := map[string]bool{}
+	for _, o := range res.Obls {
+		have0[o.Name] = true
+	}
+	greenMissing := map[string]bool{}
+	for gname := range green {
+		if !have0[gname] {
+			if i := strings.Index(gname, "/"); i > 0 {
+				fn := gname[:i]
+				if j := strings.Index(fn, "["); j > 0 {
+					fn = fn[:j]
+				}
+				greenMissing[fn] = true
+			}
+		}
+	}
 	type verdict struct {
 		lines     []string
 		undecided []*Obligation
@@ -283,7 +321,7 @@ func cmdCheck(args []string) {
 			}
 			n := 0
 			for _, o := range g.obls {
-				if !green[o.Name] {
+				if !green[o.Name] && !greenMissing[g.fn] {
 					v.undecided = append(v.undecided, o)
 					continue
 				}
